@@ -8,7 +8,8 @@ COQ_FILES = ["Agent.v", "AgentProofs.v", "Provider.v", "ProviderProofs.v", "Prov
 THEOREMS = ["C20_handshake", "C20_members", "C20_leave_removes_exactly_that_member",
             "C20_leave_shared_address_removes_one", "C20_leave_unknown_is_noop", "C20_no_panic",
             "C20_leave_unknown_pinned_refuted", "C20_self_stays_member", "C20_member_list_is_spec",
-            "C20_oracle_holds_of_model"]
+            "C20_leave_any_choice", "C20_leave_choice_realised", "C20_repeated_reports",
+            "C20_oracle_holds_of_model", "C20_driven_model_reproduces_itself"]
 RULE = ("histories of provider messages fed to the real SelfManaged receiver (mDNS switched off by the hook, a "
         "recording actor in the agent's place, an in-memory Remoter as the network): handshake from a peer, "
         "member list, RemoteUnreachableEvent broadcast on the engine (turned into memberLeave by the provider's own "
@@ -16,7 +17,14 @@ RULE = ("histories of provider messages fed to the real SelfManaged receiver (mD
         "second address, a list (thorough: also the empty list), reports for both peers' addresses and for an address nobody has; "
         "all histories up to length 3, 4 in the thorough tier), then random histories (<= 8 messages) over 4 peers "
         "with duplicate list entries, known ids under another address, reports for members, departed members, "
-        "never-seen addresses, repeats and the node's own address. Observation at start-up and after each message: "
+        "never-seen addresses, repeats and the node's own address; then the shared-address classes: two or three ids "
+        "behind ONE address with repeated reports for it — directed (m ids, k reports, m in 2..3, k in 1..m+1, ids "
+        "introduced by list or handshakes), exhaustive over an alphabet of 5 (list of two ids at address 7, handshake "
+        "of a third id at 7, report for 7, handshake of an ordinary peer, report for that peer) up to length 3 "
+        "(thorough: 5), and random histories mixing them with re-joins of removed ids. Which of the ids behind an "
+        "address goes first depends on Go's map iteration order: model and reference take the id that the observed "
+        "member list shows disappearing as GetByHost's choice (it has to be at the reported address), so the "
+        "comparison is exact and order-independent. Observation at start-up and after each message: "
         "the member lists the agent stub received, the list sent back to the handshaking peer, the provider's "
         "member list (hook), panic / ActorRestartedEvent. A case is non-trivial when the model replay reaches a "
         "proof-relevant branch; distinct = distinct (self, history)")
@@ -27,15 +35,18 @@ TRUSTED_BASE = [
     "build tag verif, overlaid: wraps SelfManaged.Receive, handles Started/Stopped as SelfManaged does minus "
     "initAutoDiscovery/startAutoDiscovery/announcer.Shutdown, reports each handled message), vlib/props/c20.py",
     "modelled not verified: the provider actor handles one message at a time (C02); a panic of Receive restarts the "
-    "actor with a fresh receiver (C05/C06); Go map iteration order replaced by std++'s canonical order (only "
-    "observable when two members share an address: excluded by host_inj); mDNS and the ping timer are left out; "
+    "actor with a fresh receiver (C05/C06); Go map iteration order: member lists are compared sorted, and the one "
+    "place where it is observable (GetByHost among several members at one address) is a parameter of the step "
+    "read off the observation (C20_leave_any_choice / C20_oracle_holds_of_model quantify over every choice); "
+    "mDNS and the ping timer are left out; "
     "strings interned to nat injectively",
 ]
 ASSUMPTIONS = [
     "the theorems are about Provider.v, a hand transcription of SelfManaged.Receive with the D10 repair "
     "(fixes/D10.diff); the tie is differential execution on generated histories",
     "C20_leave_removes_exactly_that_member assumes that no address is used by two different node ids (GetByHost "
-    "picks by address; with a shared address one of them is removed: C20_leave_shared_address_removes_one)",
+    "picks by address); with a shared address each report removes exactly one of the members behind it, whichever "
+    "GetByHost picks (C20_leave_any_choice), so k reports leave max(m-k,0) of m (C20_repeated_reports)",
     "a known id offered again under another address is ignored (first value kept); an unreachable report for the "
     "node's own address removes the node from its own list (own_address_removes_self) — C20_self_stays_member "
     "excludes such reports",
@@ -65,7 +76,8 @@ class Provider(Part):
     shard = 120
     branch_names = {1: "handshake_new_peer", 2: "handshake_known_peer", 3: "list_adds_member", 4: "list_adds_nothing",
                     5: "report_for_member", 6: "report_for_address_never_seen", 7: "report_for_departed_or_unlisted_node",
-                    8: "known_id_under_other_address_ignored", 9: "report_for_own_address", 10: "empty_list"}
+                    8: "known_id_under_other_address_ignored", 9: "report_for_own_address", 10: "empty_list",
+                    11: "report_for_address_with_several_members", 12: "report_for_shared_address_down_to_last_member"}
 
     def generate(self, rng, tier):
         cases = []
@@ -117,6 +129,48 @@ class Provider(Part):
                         a = rng.choice([20, 21, 22])        # never seen
                     hist.append(["leave", a])
             cases.append({"input": {"self": self_r, "hist": hist}, "class": "random"})
+        # ---- shared addresses: several ids behind one address, repeated reports for it
+        SH = 7
+
+        def q(i):
+            return mem(i, [], host=SH)
+        # directed: m ids (by list / by handshakes), k reports
+        for m in (2, 3):
+            ids = [1, 2, 3][:m]
+            for k in range(1, m + 2):
+                for intro in ("list", "handshakes"):
+                    hist = ([["ms", [q(i) for i in ids]]] if intro == "list"
+                            else [["hs", q(i), SH] for i in ids])
+                    hist += [["leave", SH]] * k
+                    cases.append({"input": {"self": self_m, "hist": hist}, "class": "shared_directed"})
+                    # ... with an ordinary peer that must stay untouched, and a late re-join
+                    hist2 = [["hs", p1, 1]] + hist + [["hs", q(ids[0]), SH], ["leave", SH]]
+                    cases.append({"input": {"self": self_m, "hist": hist2}, "class": "shared_directed"})
+        # exhaustive over a small alphabet
+        alpha2 = [["ms", [q(1), q(2)]], ["hs", q(3), SH], ["leave", SH], ["hs", p1, 1], ["leave", 1]]
+        maxlen2 = 3 if tier == "quick" else 5
+        for n in range(2, maxlen2 + 1):
+            for combo in itertools.product(range(len(alpha2)), repeat=n):
+                if 2 not in combo or (0 not in combo and 1 not in combo):
+                    continue        # needs a report for the shared address and somebody behind it
+                cases.append({"input": {"self": self_m, "hist": [alpha2[c] for c in combo]},
+                              "class": "shared_exhaustive"})
+        # random: two shared addresses, re-joins, other traffic
+        nshared = 120 if tier == "quick" else 3000
+        for _ in range(nshared):
+            addr = {1: 7, 2: 7, 3: 7, 4: 8, 5: 8, 6: 6}
+            hist = []
+            for _ in range(rng.randint(3, 8)):
+                r = rng.random()
+                if r < 0.3:
+                    i = rng.randint(1, 6)
+                    hist.append(["hs", mem(i, [], host=addr[i]), addr[i]])
+                elif r < 0.5:
+                    l = [mem(i, [], host=addr[i]) for i in rng.sample(range(1, 7), rng.randint(1, 4))]
+                    hist.append(["ms", l])
+                else:
+                    hist.append(["leave", rng.choice([7, 7, 7, 8, 8, 6, 9])])
+            cases.append({"input": {"self": self_m, "hist": hist}, "class": "shared_random"})
         return cases
 
     def to_coq(self, inp, obs):
